@@ -31,10 +31,7 @@ Proof. exact build_guard. Qed.
 Theorem C11_build_total : forall ops vs, weights_fit ops -> build ops = Some vs ->
   total_weight vs = spec_total ops /\ total_weight vs = sumN (sorted_weights vs) /\
   total_weight vs <= max_total /\ v_len vs = length (sorted_weights vs).
-Proof.
-  intros ops vs Hf Hb. destruct (build_counter_hyps ops vs Hf Hb) as [_ [H2 [H3 [H4 H5]]]].
-  repeat split; assumption.
-Qed.
+Proof. exact build_total. Qed.
 
 (* --- subsets of a built set (P, Q : sets of canonical positions) --- *)
 Theorem C11_whole_set_reaches : forall ops vs, weights_fit ops -> build ops = Some vs ->
